@@ -44,6 +44,9 @@ func auxRaceC10() int {
 				mem := obs.NewMem(bg)
 				io := &obs.IO{X: uint8(t), Y: 3}
 				cpu := z80.CPU{Memory: mem, IO: io}
+				if t%4 == 3 {
+					cpu.IO = nil // some CPUs run without an IO device
+				}
 				for rep := 0; rep < 2; rep++ {
 					for _, p := range paths {
 						mem.Reset()
